@@ -441,6 +441,25 @@ func checkC17(c C17Case, x *vrt.Exec) {
 				r.violate("chunk-written-more-than-twice", fmt.Sprintf("file %d: chunk %d written %d times", fi, i, cnt))
 			}
 		}
+		// the verification tail: unless the receiver holds every chunk, the last `tail` chunks up
+		// to and including the verification point go out again (that is what the option is for)
+		if !c.NoAns && c.Delay == 0 && highest >= 0 && c.Tail > 0 && c.Hash != "none" {
+			all := true
+			for i := 0; i < n; i++ {
+				if bits&(1<<uint(i)) == 0 {
+					all = false
+				}
+			}
+			from := highest + 1 - int(c.Tail)
+			if from < 0 {
+				from = 0
+			}
+			for i := from; i <= highest && !all; i++ {
+				if sent[uint32(i)] == 0 {
+					r.violate("verification-tail-not-sent", fmt.Sprintf("file %d: chunk %d lies within the verification tail (point %d, tail %d) and was never written", fi, i, highest, c.Tail))
+				}
+			}
+		}
 		// re-sends: only the verification chunk, only after a wrong hash
 		resends := 0
 		for _, h := range r.handouts {
@@ -484,7 +503,10 @@ func modeC17() {
 					if bits == 0 && h != "right" {
 						continue
 					}
-					for _, tail := range []uint32{0, 1} {
+					for _, tail := range []uint32{0, 1, 2} {
+						if tail == 2 && (n < 2 || w > 2) {
+							continue
+						}
 						for _, delay := range []int{0, 400} {
 							cases = append(cases, C17Case{Chunks: []int{n}, Streams: w, Bitmap: []int{bits}, Hash: h, Tail: tail, Delay: delay})
 						}
